@@ -1,6 +1,8 @@
 """C15 cases: byte-slice decoding and endianness helpers."""
 from .common import *
 
+NIGHTLY = True  # to_*_bytes / from_*_bytes need bnum's `nightly` feature (cargo +nightly)
+
 
 def slice_case(rng, w, n, signed):
     BY = w * n // 8
@@ -33,8 +35,11 @@ def gen(rng, tier):
                 t, b = slice_case(rng, w, n, s == "i")
                 yield f"from_le_slice {s}{cfg} {b[::-1].hex() or '-'}", t
                 t, a = value(rng, w, n)
-                for op in ("to_be", "to_le", "from_be", "from_le"):
+                for op in ("to_be", "to_le", "from_be", "from_le", "to_be_bytes", "to_le_bytes", "to_ne_bytes"):
                     yield f"{op} {s}{cfg} {hx(a)}", t
+                BY = w * n // 8
+                for op in ("from_be_bytes", "from_le_bytes", "from_ne_bytes"):
+                    yield f"{op} {s}{cfg} {bytes(rng.choice([0, 0xff, 0x80, rng.randrange(256)]) for _ in range(BY)).hex()}", "bytes"
     # all lengths 0..=2*BYTES+2 for small configurations
     for cfg in ["8x1", "8x3", "16x1", "32x2", "64x1"]:
         w, n = wn(cfg)
